@@ -84,6 +84,86 @@ def isReached (F : Fns) (τ ε : Rat) : List GState → St → Res Bool
       | .error e => .error e
       | .ok b' => .ok (b || b')
 
+/-! ### the code path of `is_reached` step by step (goal.py:99-124, 136-155, 199-227) — tied to the source by translation (CRProps/T08)
+
+  `is_reached` does not compute `fieldsOk` / `oriOf` / `velOf` outright: it builds the two SETS of attribute names
+  (`used_attributes`), lets `_harmonize_state_types` rewrite the state and its set, tests `issubset`, and then reads the
+  rewritten state. The definitions below follow that path; `C08_harmonize_spec` / `C08_isReachedSteps_eq` (CRProps/C08.lean)
+  prove it is `reachedOne` / `isReached`. -/
+
+/-- Attribute names the check looks at (all other state attributes are `other`: they pass through untouched). -/
+inductive Fld where
+  | time_step | position | orientation | velocity | velocity_y | other (name : String)
+  deriving DecidableEq, Repr
+
+/-- `set(goal_state.used_attributes)`: `time_step` is mandatory, the others as far as they are set. -/
+def GState.usedAttrs (g : GState) : List Fld :=
+  [Fld.time_step] ++ (if g.pos.isSome then [Fld.position] else []) ++ (if g.ori.isSome then [Fld.orientation] else []) ++
+    (if g.vel.isSome then [Fld.velocity] else [])
+
+/-- `set(state.used_attributes)` restricted to the five attributes the check can look at. -/
+def St.usedAttrs (s : St) : List Fld :=
+  [Fld.time_step] ++ (if s.pos.isSome then [Fld.position] else []) ++ (if s.ori.isSome then [Fld.orientation] else []) ++
+    (if s.vel.isSome then [Fld.velocity] else []) ++ (if s.velY.isSome then [Fld.velocity_y] else [])
+
+/-- `a.issubset(b)` on attribute-name sets. -/
+def subsetF (a b : List Fld) : Bool := a.all (fun f => b.contains f)
+
+/-- The guard of `_harmonize_state_types` (goal.py:210-214) on the two name sets. -/
+def harmCond (sf gf : List Fld) : Bool :=
+  (sf.contains Fld.velocity && sf.contains Fld.velocity_y) &&
+  (gf.contains Fld.orientation || gf.contains Fld.velocity) &&
+  !(gf.contains Fld.velocity && gf.contains Fld.velocity_y)
+
+/-- `_harmonize_state_types(state, goal_state, state_fields, goal_state_fields)`: the rewritten state and its name set
+    (goal state and goal name set are returned unchanged). For name sets that do not describe the state (never passed by
+    `is_reached`) `np.array([None, …])` / `atan2(None, …)` raise `TypeError`. -/
+def harmonize (F : Fns) (s : St) (sf gf : List Fld) : Res (St × List Fld) :=
+  if harmCond sf gf then
+    match s.vel, s.velY with
+    | some vx, some vy =>
+      if sf.contains Fld.orientation then
+        -- `state_new.velocity = velocity`; the stored orientation and `velocity_y` stay
+        .ok ({ s with vel := some (F.hyp vx vy) }, sf.filter (· != Fld.velocity_y))
+      else
+        -- point-mass state: a new CustomState without `velocity_y`, heading `atan2(vy, vx)`, speed `hypot(vx, vy)`
+        .ok ({ s with ori := some (F.at2 vy vx), vel := some (F.hyp vx vy), velY := none },
+             (sf ++ [Fld.orientation]).filter (· != Fld.velocity_y))
+    | _, _ => .error .type
+  else .ok (s, sf)
+
+/-- What `_check_value_in_interval` is given as `desired_interval`. -/
+inductive Desired where
+  | interval (i : I)       -- an `Interval`
+  | angle (i : I)          -- an `AngleInterval`
+  | other                  -- anything else (an exact value, `None`, …)
+  deriving Repr
+
+/-- `_check_value_in_interval(value, desired_interval)` (goal.py:136-155): membership by the interval's own `contains`;
+    `ValueError` for anything that is not an interval. -/
+def checkValue (τ ε : Rat) (x : Rat) : Desired → Res Bool
+  | .interval i => .ok (contains i x)
+  | .angle i => .ok (containsAngle τ ε i x)
+  | .other => .error .value
+
+/-- One iteration of the loop in `is_reached`, along the code path: name sets, harmonisation, subset test, four guarded checks. -/
+def reachedOneSteps (F : Fns) (τ ε : Rat) (g : GState) (s : St) : Res Bool :=
+  match harmonize F s s.usedAttrs g.usedAttrs with
+  | .error e => .error e
+  | .ok (s', sf') =>
+    if ¬ subsetF g.usedAttrs sf' then .error .value else
+    let r1 := contains g.time s'.t
+    let r2 := match g.pos, s'.pos with
+      | some sh, some p => sh.contains p
+      | _, _ => true
+    let r3 := match g.ori, s'.ori with
+      | some iv, some θ => containsAngle τ ε iv θ
+      | _, _ => true
+    let r4 := match g.vel, s'.vel with
+      | some iv, some v => contains iv v
+      | _, _ => true
+    .ok (r1 && r2 && r3 && r4)
+
 /-! ### `GoalRegion.translate_rotate(t, 0)` (goal.py:123-131 → `State.translate_rotate`, state.py:259-301)
 
   A pure translation (angle 0: `cos = 1.0`, `sin = 0.0`, exact) moves every goal position by `t` and leaves the time,
